@@ -204,6 +204,111 @@ func readAll(c *core.Ctx, r io.Reader, rs int, retries int) readResult {
 // ---------------------------------------------------------------------------
 // C14: clean configuration.
 
+// inMemoryEnds: the in-memory reader and writer types programs really use, in
+// the states they are really in - a destination bytes.Buffer that is not fresh
+// (reused after a larger output, pre-sized, or already holding other data), a
+// source bytes.Reader / bytes.Buffer that was advanced past a prefix before
+// the decoder got it, and a source bytes.Buffer that is still being filled
+// while the decoder reads.
+func inMemoryEnds(c *core.Ctx, s setup, digest string, refStream []byte) {
+	var dst bytes.Buffer
+	pre := []byte(nil)
+	switch c.Pick("mem.dst", 3) {
+	case 0:
+		dst.Write(make([]byte, len(refStream)+c.Int("mem.dstSlack", 1, 5000)))
+		dst.Reset()
+	case 1:
+		dst.Grow(len(refStream) + c.Int("mem.dstGrow", 1, 5000))
+	default:
+		pre = c.Bytes("mem.dstPrefix", 1, 40)
+		dst.Grow(len(pre) + c.Int("mem.dstSlack", 0, 3*len(refStream)+64))
+		dst.Write(pre)
+	}
+	var d2 string
+	var err error
+	if pi := c.Guard("mice.Encode", func() { d2, err = s.enc.Encode(&dst, s.payload, s.rs) }); pi != nil {
+		if c.Oracle("C14", "C10") {
+			c.Violation("panic", pi.Site, "Encode into a bytes.Buffer that is not fresh panicked: %s", pi.Value)
+		}
+		return
+	}
+	if c.Oracle("C14") {
+		if err != nil || d2 != digest {
+			c.Violation("encode-error", "mice.Encode/used-buffer", "Encode into a bytes.Buffer that is not fresh: err=%v digest %q, expected %q", err, d2, digest)
+		}
+		if !bytes.Equal(dst.Bytes(), append(append([]byte(nil), pre...), refStream...)) {
+			c.Violation("stream-mismatch", "mice.Encode/used-buffer", "a bytes.Buffer that was not fresh holds %d bytes that are not prefix + stream (%d + %d)", dst.Len(), len(pre), len(refStream))
+		}
+	}
+	// sources
+	prefix := c.Bytes("mem.srcPrefix", 1, 70)
+	whole := append(append([]byte(nil), prefix...), refStream...)
+	var src io.Reader
+	var feed func()
+	switch c.Pick("mem.src", 3) {
+	case 0:
+		r := bytes.NewReader(whole)
+		r.Seek(int64(len(prefix)), io.SeekStart)
+		src = r
+	case 1:
+		b := bytes.NewBuffer(whole)
+		b.Next(len(prefix))
+		src = b
+	default:
+		// a bytes.Buffer that receives the stream in two parts: the second part arrives after
+		// the first small Read (cut behind a whole record-and-proof unit, so that the decoder
+		// never sees a premature end)
+		units := (len(refStream) - 8) / (s.rs + 32)
+		if len(refStream) < 8 || units < 1 {
+			src = bytes.NewBuffer(append([]byte(nil), refStream...))
+			break
+		}
+		cut := 8 + c.Int("mem.srcUnits", 1, units)*(s.rs+32)
+		b := bytes.NewBuffer(append([]byte(nil), refStream[:cut]...))
+		src = b
+		feed = func() { b.Write(refStream[cut:]) }
+		c.Probe("source bytes.Buffer filled while the decoder reads")
+	}
+	var dec io.Reader
+	if pi := c.Guard("mice.NewDecoder", func() { dec, err = s.enc.NewDecoder(src, digest, 16384) }); pi != nil {
+		if c.Oracle("C14", "C10") {
+			c.Violation("panic", pi.Site, "NewDecoder panicked: %s", pi.Value)
+		}
+		return
+	}
+	if err != nil {
+		if c.Oracle("C14") {
+			c.Violation("decode-error", "mice.NewDecoder/in-memory-source", "NewDecoder failed on the honest stream read from an advanced in-memory reader: %v", err)
+		}
+		return
+	}
+	var out []byte
+	if feed != nil {
+		small := make([]byte, c.Int("mem.firstRead", 1, s.rs))
+		n, rerr := dec.Read(small)
+		out = append(out, small[:n]...)
+		if rerr != nil && c.Oracle("C14") {
+			c.Violation("decode-error", "mice.decoder.Read/in-memory-source", "first Read failed: %v", rerr)
+		}
+		feed()
+	}
+	var rr readResult
+	if pi := c.Guard("mice.decoder.Read", func() { rr = readAll(c, dec, s.rs, 0) }); pi != nil {
+		c.CheckTotal("mice.decoder.Read", len(refStream), pi, 0)
+		return
+	}
+	out = append(out, rr.out...)
+	if c.Oracle("C14") {
+		if rr.firstErr != nil {
+			c.Violation("decode-error", "mice.decoder.Read/in-memory-source", "Read failed on the honest stream after %d bytes: %v", len(out), rr.firstErr)
+		}
+		if !bytes.Equal(out, s.payload) {
+			c.Violation("roundtrip-mismatch", "mice.decoder.Read/in-memory-source", "decoded %s, payload %s", core.Hex(out), core.Hex(s.payload))
+		}
+	}
+	c.Probe("in-memory destination and source in used states")
+}
+
 func runClean(c *core.Ctx, s setup) {
 	// encode through a simulated destination
 	wp := core.WriterPlan{FailAt: -1, ReaderFrom: c.Bool("dst.readerFrom")}
@@ -228,6 +333,9 @@ func runClean(c *core.Ctx, s setup) {
 		if s.enc.DigestHeaderName() != s.draft.HeaderName() || s.enc.ContentEncoding() != s.draft.Name() {
 			c.Violation("header-name", "mice.Encoding", "header name %q/%q", s.enc.DigestHeaderName(), s.enc.ContentEncoding())
 		}
+	}
+	if c.Chance("inMemoryEnds", 1, 4) {
+		inMemoryEnds(c, s, digest, refStream)
 	}
 	// decode under a clean but arbitrary delivery schedule
 	plan := c.DrawReaderPlan("chan", len(stream), false)
@@ -587,7 +695,48 @@ func TestArbitrary(t *testing.T) {
 			// committed = the unique payload the chosen digest commits to (known
 			// by construction; for a random digest nothing may ever be released)
 			committed, commits := s.payload, true
-			switch c.Pick("digest.kind", 5) {
+			switch c.Pick("digest.kind", 7) {
+			case 5:
+				// digest values an implementation might use as a sentinel: all zero, all ones, the
+				// hash of nothing, of a lone 0 / 1 byte
+				switch c.Pick("digest.special", 5) {
+				case 0:
+					top = make([]byte, 32)
+				case 1:
+					top = bytes.Repeat([]byte{0xff}, 32)
+				case 2:
+					h := sha256.Sum256(nil)
+					top = h[:]
+				case 3:
+					h := sha256.Sum256([]byte{1})
+					top = h[:]
+				default:
+					h := sha256.Sum256([]byte{0})
+					top = h[:]
+				}
+				if ref := refmice.Decode(s.draft, stream, top, 16384); ref.Complete || len(ref.Prefix) > 0 {
+					committed = ref.Prefix
+					commits = ref.Complete
+				} else {
+					committed, commits = nil, false
+				}
+				c.Probe("digest with a sentinel-like value")
+			case 6:
+				// a first record whose proof of the rest is 32 zero bytes (or 32 x 0xff), under a
+				// digest that genuinely commits to it: the record is authentic, nothing can follow
+				rsz := c.PickInt("zero.rs", 1, 7, 16, 64)
+				r1 := c.BytesN("zero.r1", rsz)
+				proof := make([]byte, 32)
+				if c.Bool("zero.ones") {
+					proof = bytes.Repeat([]byte{0xff}, 32)
+				}
+				var hdr8 [8]byte
+				binary.BigEndian.PutUint64(hdr8[:], uint64(rsz))
+				stream = append(append(append(append([]byte(nil), hdr8[:]...), r1...), proof...), c.Bytes("zero.tail", 0, 80)...)
+				h := sha256.Sum256(append(append(append([]byte(nil), r1...), proof...), 1))
+				top = h[:]
+				committed, commits = r1, false
+				c.Probe("authentic record whose proof of the rest is a sentinel-like value")
 			case 4:
 				// record size within 32 of 2^64 (size + proof length wraps to a small number)
 				// with a digest crafted to match the bytes that follow as a non-final record
